@@ -131,7 +131,7 @@ func Walk(fsys afero.Fs, root string) []Entry {
 		}
 		e := infoEntry(p, fi)
 		if l, ok := fsys.(afero.Lstater); ok {
-			if lfi, _, lerr := l.LstatIfPossible(p); lerr == nil && lfi != nil {
+			if lfi, _, lerr := l.LstatIfPossible(p); lerr == nil && lfi != nil && lfi.Mode()&os.ModeSymlink != 0 {
 				if r, ok := fsys.(afero.LinkReader); ok {
 					if tgt, rerr := r.ReadlinkIfPossible(p); rerr == nil && tgt != "" {
 						e.Link = tgt
